@@ -1,6 +1,7 @@
 """C11 - shuffle is a seed-determined permutation inside each layer."""
 import os
 import random
+import re
 import sys
 
 LEVEL = 'exploration'
@@ -207,6 +208,39 @@ def run_case(case):
                       what=what, layer=L, seed=rep_seed, ref=tids[:10],
                       got=got.get(L, [])[:10])
 
+        # a clock-seeded run whose layers go to subprocesses: every child
+        # draws a seed of its own, so every child-run layer must come with
+        # the seed that reproduces its order
+        if seed is None and len(disc) >= 2:
+            N = rng.randint(2, len(disc) + 1)
+            wj = common.run_world(spec, None, {'shuffle': True,
+                                               'processes': N}, root=root)
+            C('clock_seed_par_runs')
+            if wj.raised is None:
+                gotj = orders(wj.events, model)
+                for blk in wj.info['layers']:
+                    L = model.short(blk['name'])
+                    if len(gotj.get(L, [])) < 3:
+                        continue
+                    m = blk.get('seed')
+                    C('child_seed_lines_checked')
+                    if m is None:
+                        V('seed-not-reported-for-a-layer-run-in-a-'
+                          'subprocess', 'shuffle-seed-line', layer=L,
+                          block=blk['lines'][-6:])
+                        continue
+                    pat = 'UnitTests$' if L == 'UNIT' else \
+                        '%s\\.%s$' % (spec['layers_module'], L)
+                    wr2 = common.run_world(
+                        spec, None, {'shuffle_seed': m, 'layer': [pat]},
+                        root=root)
+                    if wr2.raised is None and \
+                            orders(wr2.events, model).get(L) != gotj[L]:
+                        V('reported-seed-does-not-reproduce-the-order',
+                          'shuffle-order-reported-seed', layer=L, seed=m,
+                          ran=gotj[L][:8],
+                          rerun=orders(wr2.events, model).get(L, [])[:8])
+                    break
         sopts = {'shuffle_seed': rep_seed}
         # same seed again, sequential
         compare(common.run_world(spec, None, sopts, root=root), 'seq2')
